@@ -154,7 +154,9 @@ def check_form_maps(acc: Acc, base, desc: Tuple, form, N: int, payload: dict) ->
                                       f"{c09.rule_desc(base)} form {fid}: part {x} of {o} is not an object of child {children[i].sid()}", payload)
                         return
                 back = list(form.backward_map(parts))
-                if back != [o]:
+                # (a three-to-one strategy yields every preimage; the object must be among them
+                # and all of them must have the same parts)
+                if o not in back or len(set(back)) != len(back) or any(tuple(form.forward_map(b)) != tuple(parts) for b in back):
                     acc.violation("backward(forward)!=id", "Rule.backward_map", where,
                                   f"{c09.rule_desc(base)} form {fid}: {o} -> {parts} -> {back}", payload)
                     return
@@ -174,14 +176,15 @@ def check_form_maps(acc: Acc, base, desc: Tuple, form, N: int, payload: dict) ->
                 objs = list(form.backward_map(t))
             except NotImplementedError:
                 return
-            if len(objs) != 1:
-                acc.violation("backward-map-not-single", "Rule.backward_map", where, f"{c09.rule_desc(base)} form {fid}: {t} -> {objs}", payload)
+            if len(objs) < 1:
+                acc.violation("backward-map-empty", "Rule.backward_map", where, f"{c09.rule_desc(base)} form {fid}: {t} -> {objs}", payload)
                 return
             if sum(x.size() for x in t if x is not None) <= N:
-                fw = tuple(form.forward_map(objs[0]))
-                if fw != tuple(t):
-                    acc.violation("forward(backward)!=id", "Rule.forward_map", where, f"{c09.rule_desc(base)} form {fid}: {t} -> {objs[0]} -> {fw}", payload)
-                    return
+                for ob in objs:
+                    fw = tuple(form.forward_map(ob))
+                    if fw != tuple(t):
+                        acc.violation("forward(backward)!=id", "Rule.forward_map", where, f"{c09.rule_desc(base)} form {fid}: {t} -> {ob} -> {fw}", payload)
+                        return
         acc.nt((c09.rule_desc(base), desc))
         acc.outcome((type(base.strategy).__name__, tuple(d for d in desc if not isinstance(d, int))))
     except NotImplementedError:
@@ -399,7 +402,7 @@ def run(ctx: Ctx) -> None:
     for family, stats_list in c09g.families(ctx.tier):
         total = len(dg.grammars(family))
         for lo in range(0, total, 40):
-            shards.append((ctx.tier, family, [list(s) for s in stats_list[:2]], lo, min(lo + 40, total)))
+            shards.append((ctx.tier, family, [list(s) for s in (stats_list if family == "one" else stats_list[:2])], lo, min(lo + 40, total)))
     ctx.pmap(_worker_forms_g, shards)
     icfgs = interrupt_configs(ctx.tier)
     ctx.bounds["interrupted_call_configurations"] = len(icfgs)
